@@ -34,7 +34,8 @@ type FuncContract struct {
 	Pure        map[string]bool // function-typed params treated as pure functions
 	Items       []Item          // requires ensures let (in order)
 	Modifies    []Expr
-	ModAll      bool // modifies *
+	ModAll      bool   // modifies *
+	ModExcept   []Expr // modifies * except ... (whole heaps that stay untouched)
 	HasModifies bool
 	NoPanic     bool
 	Overflow    bool
@@ -366,6 +367,13 @@ func (cs *Contracts) LoadFile(path string, pkgPath string, external bool) {
 					fc.HasModifies = true
 					if strings.TrimSpace(txt) == "*" {
 						fc.ModAll = true
+						continue
+					}
+					if strings.HasPrefix(strings.TrimSpace(txt), "* except ") {
+						fc.ModAll = true
+						for _, part := range splitTop(strings.TrimPrefix(strings.TrimSpace(txt), "* except ")) {
+							fc.ModExcept = append(fc.ModExcept, parse(it, part))
+						}
 						continue
 					}
 					for _, part := range splitTop(txt) {
